@@ -182,10 +182,22 @@ def gsize(t):
 
 def gen_pairs(ctx):
     rng = ctx.rng
-    n = ctx.scale(2600, 40000)
+    n = ctx.scale(1600, 40000)
     out, seen = [], set()
     kinds = {}
     tries = 0
+    V = lambda i: ("var", "X%d" % i)
+    fixed = [(("cmp", "-", [V(0), V(1)]), ("str", "ba")), (("cmp", "f", [V(0)]), ("str", "a")), (("cmp", "g", [V(0), V(1)]), ("str", "ab")),
+             (terms.mklist([V(0)], V(1)), ("str", "ab")),
+             (("cmp", "f", [V(0), V(0)]), ("cmp", "f", [V(1), ("cmp", "g", [V(1)])])),
+             (V(0), ("cmp", "g", [V(0)])), (("cmp", "h", [V(0), V(1), V(0)]), ("cmp", "h", [("cmp", "g", [V(1)]), ("cmp", "g", [V(0)]), V(1)])),
+             (("int", 1), norm_float(1.0)), (("int", 2 ** 70), ("calc", "2^70", ("int", 2 ** 70))), (norm_float(-0.0), norm_float(0.0))]
+    for a, b in fixed:
+        ea, eb = expand(a), expand(b)
+        calc = a[0] == "calc" or b[0] == "calc"
+        seen.add((terms.to_prolog(ea), terms.to_prolog(eb), json.dumps([a, b]) if calc else ""))
+        kinds["fixed"] = kinds.get("fixed", 0) + 1
+        out.append({"a": a, "b": b, "ea": ea, "eb": eb, "nv": 2, "kind": "fixed", "calc": calc})
     while len(out) < n and tries < 20 * n:
         tries += 1
         nv = rng.choice([1, 2, 2, 3, 3, 4, 5])
@@ -262,7 +274,8 @@ def build_jobs(pairs):
                 vb = sorted(set(terms.term_vars(p["eb"])))
                 hl = "[%s]" % ",".join(vb)
                 prog.append("c10_h%d(%s, %s).\n" % (i, tb, hl))
-                for mode in ("eq_false", "eq_true", "eq_error"):
+                # a string in the head is compiled to get_partial_string, which does not bind with the flag: one mode is enough
+                for mode in (("eq_false",) if has_str(p["b"]) else ("eq_false", "eq_true", "eq_error")):
                     flag = MODES[mode][0]
                     qs.append("findall(O, c10_runh(%s, c10_h%d(%s, %s), %s, %s, %s, O), L)." % (flag, i, ta, hl, ta, tb, vl))
                     index.append((i, mode, "head", len(jobs), len(qs) - 1))
@@ -327,99 +340,146 @@ def classify(ans, path):
         return "IOther", "unreadable answer %s: %s" % (e, json.dumps(ans)[:200])
 
 
+def has_str(t):
+    return t[0] == "str" or (t[0] == "cmp" and any(has_str(x) for x in t[2]))
+
+
+def impl_kind(o):
+    if o[0] == "IOther":
+        return "panic" if "panic" in o[1] else "other"
+    return {"IFail": "fail", "IOccursError": "error"}.get(o[0], "ok" if o[0].startswith("(IOkBind") else "ok-cyclic")
+
+
 def run(ctx):
+    import time
     pairs, kinds = gen_pairs(ctx)
     jobs, index = build_jobs(pairs)
-    import time
     t0 = time.time()
     res = core.vrun_query(ctx.prop, jobs, tag="impl")
     core.log("C10: %d queries on the implementation in %.1fs" % (len(index), time.time() - t0))
-    exprs, meta = [], []
     tie_breaks, failures = [], []
-    outcome = {}
+    per_pair = {}            # i -> list of (mode, path, o)
     for (i, mode, path, jid, qi) in index:
-        p = pairs[i]
         r = res.get(str(jid))
         if r is None or "results" not in r or qi >= len(r["results"]):
             o = ("IOther", "no result: %s" % json.dumps(r)[:200])
         else:
             o = classify(r["results"][qi], path)
+        per_pair.setdefault(i, []).append((mode, path, o))
+
+    def coq_pair(p):
         varnum = {v: int(v[1:]) for v in p["vs"]}
-        vs = "[%s]%%N" % "; ".join(str(varnum[v]) for v in p["vs"] + []) if p["vs"] else "[]"
         vs = "[%s]%%N" % "; ".join([str(varnum[v]) for v in p["vs"]] + [str(WIT)])
-        ca, cb = terms.to_coq(p["ea"], varnum), terms.to_coq(p["eb"], varnum)
-        exprs.append("%s %s %s %s %s" % (MODES[mode][2], ca, cb, vs, o[0]))
-        meta.append((i, mode, path, o))
-        if mode == "eq_false" and path == "call":
-            outcome[i] = o[0].split()[0].strip("(")
-    # identical (pair, check, output) expressions are evaluated once
-    uniq, pos = {}, []
-    for e in exprs:
-        if e not in uniq: uniq[e] = len(uniq)
-        pos.append(uniq[e])
-    ulist = list(uniq)
+        return terms.to_coq(p["ea"], varnum), terms.to_coq(p["eb"], varnum), vs
+
+    exprs, order = [], []
+    n_cmp = 0
+    for i, obs in sorted(per_pair.items()):
+        ca, cb, vs = coq_pair(pairs[i])
+        groups = {"check_rt": [], "check_oc": [], "check_err": []}
+        for mode, path, o in obs:
+            n_cmp += 1
+            g = groups[MODES[mode][2]]
+            if o[0] not in g: g.append(o[0])
+        exprs.append("check_pair %s %s %s [%s] [%s] [%s]" % (ca, cb, vs, "; ".join(groups["check_rt"]), "; ".join(groups["check_oc"]),
+                                                              "; ".join(groups["check_err"])))
+        order.append(i)
     t0 = time.time()
-    bad, errs = core.coq_eval_bools(ctx.prop, IMPORTS, ulist, chunk=500)
-    core.log("C10: %d Coq evaluations in %.1fs" % (len(ulist), time.time() - t0))
-    badset = set(bad)
+    chunk = max(250, -(-len(exprs) // core.NPROC))
+    bad, errs = core.coq_eval_bools(ctx.prop, IMPORTS, exprs, chunk=chunk)
+    core.log("C10: %d Coq evaluations (pairs) in %.1fs" % (len(exprs), time.time() - t0))
     for k, t in errs:
         tie_breaks.append({"kind": "coq-eval", "what": "model evaluation shard failed", "detail": t})
-    reported = set()
-    for idx, (i, mode, path, o) in enumerate(meta):
-        if pos[idx] not in badset:
-            continue
-        p = pairs[i]
-        if len(failures) >= 25:
-            break
-        calcs = []
-        ta = prolog_text(p["a"], calcs); tb = prolog_text(p["b"], calcs)
-        pre = "".join("K%d is %s, " % (k, e) for k, e in enumerate(calcs))
-        flag, pred, fn = MODES[mode]
-        goal = "%s = %s" % (ta, tb) if pred == "eq" else "unify_with_occurs_check(%s, %s)" % (ta, tb)
-        varnum = {v: int(v[1:]) for v in p["vs"]}
-        ca, cb = terms.to_coq(p["ea"], varnum), terms.to_coq(p["eb"], varnum)
-        verdict = core.coq_eval_show(ctx.prop, IMPORTS, "(unify_oc %s %s, unify_rt %s %s)" % (ca, cb, ca, cb))
-        mv = "finite-unifier" if "Some [" in verdict or "(Some" in verdict.split(",")[0] else "no-finite-unifier"
-        key = "unify:%s:%s:model=%s:impl=%s" % (mode, path, mv, o[0].split()[0].strip("("))
-        if key in reported and len(failures) > 8:
-            continue
-        reported.add(key)
-        failures.append({"key": key, "what": "unification outcome differs from the model (%s via %s path)" % (mode, path),
-                         "input": "%sset_prolog_flag(occurs_check, %s), %s.   %% variables %s" % (pre, flag, goal, ",".join(p["vs"])),
-                         "impl": o[1], "spec": "(unify_oc, unify_rt) = " + verdict[:1500], "property_fails": True})
+    # second pass over the failing pairs: which observation disagrees, and the model's verdict
+    bad_pairs = [order[k] for k in bad][:150]
+    if bad_pairs:
+        e2, m2 = [], []
+        for i in bad_pairs:
+            ca, cb, vs = coq_pair(pairs[i])
+            e2.append("N.eqb (verdict %s %s) 0%%N" % (ca, cb)); m2.append((i, "v0"))
+            e2.append("N.eqb (verdict %s %s) 1%%N" % (ca, cb)); m2.append((i, "v1"))
+            e2.append("N.eqb (verdict %s %s) 2%%N" % (ca, cb)); m2.append((i, "v2"))
+            seen = set()
+            for mode, path, o in per_pair[i]:
+                fn = MODES[mode][2]
+                if (fn, o[0]) in seen: continue
+                seen.add((fn, o[0]))
+                e2.append("%s %s %s %s %s" % (fn, ca, cb, vs, o[0])); m2.append((i, (fn, o[0])))
+        bad2, errs2 = core.coq_eval_bools(ctx.prop, IMPORTS, e2, chunk=max(250, -(-len(e2) // core.NPROC)), tag="diag")
+        for k, t in errs2:
+            tie_breaks.append({"kind": "coq-eval", "what": "model evaluation shard failed (diagnosis)", "detail": t})
+        false2 = set(m2[k] for k in bad2)
+        shown = 0
+        per_key = {}
+        for i in bad_pairs:
+            p = pairs[i]
+            verdict = "finite" if (i, "v0") not in false2 else "cyclic-only" if (i, "v1") not in false2 else \
+                      "none" if (i, "v2") not in false2 else "model-out-of-fuel"
+            calcs = []
+            ta = prolog_text(p["a"], calcs); tb = prolog_text(p["b"], calcs)
+            pre = "".join("K%d is %s, " % (k, e) for k, e in enumerate(calcs))
+            for mode, path, o in per_pair[i]:
+                flag, pred, fn = MODES[mode]
+                if (i, (fn, o[0])) not in false2:
+                    continue
+                key = "unify:%s:%s:%s:%s" % (mode, path, verdict, impl_kind(o))
+                per_key[key] = per_key.get(key, 0) + 1
+                if per_key[key] > 3 or len(failures) >= 40:
+                    continue
+                if path == "head":
+                    vb = sorted(set(terms.term_vars(p["eb"])))
+                    hl = "[%s]" % ",".join(vb)
+                    inp = ("clause  h(%s, %s).   query  set_prolog_flag(occurs_check, %s), h(%s, %s)." % (tb, hl, flag, ta, hl))
+                else:
+                    goal = "%s = %s" % (ta, tb) if pred == "eq" else "unify_with_occurs_check(%s, %s)" % (ta, tb)
+                    inp = "%sset_prolog_flag(occurs_check, %s), %s.%s" % (pre, flag, goal, "   (goal in a compiled clause body)" if path == "body" else "")
+                spec = {"finite": "succeeds with the most general unifier", "none": "fails (no unifier, finite or rational)",
+                        "cyclic-only": {"check_rt": "succeeds with a cyclic unifier, A == B", "check_oc": "fails (no finite unifier)",
+                                        "check_err": "raises error(representation_error(term),_)"}[fn],
+                        "model-out-of-fuel": "?"}[verdict]
+                if shown < 6:
+                    ca, cb, vs = coq_pair(p)
+                    spec += "; " + core.coq_eval_show(ctx.prop, IMPORTS, "(unify_oc %s %s, unify_rt %s %s)" % (ca, cb, ca, cb))[:1200]
+                    shown += 1
+                failures.append({"key": key, "what": "unification outcome differs from the model (%s, %s path); model verdict: %s" % (mode, path, verdict),
+                                 "input": inp, "impl": o[1], "spec": spec, "property_fails": True})
+        if per_key:
+            ctx.notes.append("failing observations per key: %s" % json.dumps(per_key, sort_keys=True))
     # measured distribution / non-triviality
     dist = {"pair_kinds": kinds, "outcome_of_=": {}, "paths": {}, "modes": {}}
-    for (i, mode, path, o) in meta:
-        dist["paths"][path] = dist["paths"].get(path, 0) + 1
-        dist["modes"][mode] = dist["modes"].get(mode, 0) + 1
     nontrivial = 0
     for i, p in enumerate(pairs):
-        oc = outcome.get(i, "?")
-        dist["outcome_of_="][oc] = dist["outcome_of_="].get(oc, 0) + 1
+        for mode, path, o in per_pair.get(i, []):
+            dist["paths"][path] = dist["paths"].get(path, 0) + 1
+            dist["modes"][mode] = dist["modes"].get(mode, 0) + 1
+            if mode == "eq_false" and path == "call":
+                k = impl_kind(o)
+                dist["outcome_of_="][k] = dist["outcome_of_="].get(k, 0) + 1
         ea, eb = p["ea"], p["eb"]
-        has_var = bool(p["vs"])
         root_ok = ea[0] == "var" or eb[0] == "var" or (ea[0] == "cmp" and eb[0] == "cmp" and ea[1] == eb[1] and len(ea[2]) == len(eb[2]))
-        if has_var and root_ok and ea != eb:
+        if p["vs"] and root_ok and ea != eb:
             nontrivial += 1
     dist["calc_number_pairs"] = sum(1 for p in pairs if p["calc"])
+    dist["pairs_with_strings"] = sum(1 for p in pairs if has_str(p["a"]) or has_str(p["b"]))
     samples = []
-    for idx in range(0, len(meta), max(1, len(meta) // 10)):
-        i, mode, path, o = meta[idx]
+    for i in range(0, len(pairs), max(1, len(pairs) // 10)):
         p = pairs[i]
+        mode, path, o = per_pair[i][i % len(per_pair[i])]
         samples.append({"A": terms.to_prolog(p["ea"]), "B": terms.to_prolog(p["eb"]), "mode": mode, "path": path, "impl": o[1][:160]})
     return {
-        "evaluations": len(exprs),
+        "evaluations": n_cmp,
         "distinct_nontrivial": nontrivial,
         "rule": ("pairs of terms (depth <= 4, <= 5 variables shared inside and across the pair; atoms, small and big integers, floats, "
                  "arithmetic-made bignums/rationals, strings vs char lists, partial and improper lists, structures incl. same name/different arity) "
                  "built as independent terms, two generalisations of one term, generalisation + mutation, or variables-vs-terms argument vectors; "
                  "each pair under =/2 (occurs_check false/true/error) and unify_with_occurs_check/2 through the meta-call, compiled-body and "
-                 "clause-head paths; compared in Coq with check_rt/check_oc/check_err (success, A==B, bindings of every variable up to variance, "
-                 "witness variable unbound, error formal). evaluations = comparisons; non-trivial = distinct pairs that contain a variable, "
-                 "are not identical and do not clash at the root (so at least one binding or a deep failure is exercised)"),
+                 "clause-head paths; compared in Coq with check_pair = check_rt/check_oc/check_err (success, A==B, bindings of every variable up "
+                 "to variance, witness variable unbound, error formal). evaluations = (pair, mode, path) observations compared; non-trivial = "
+                 "distinct pairs that contain a variable, are not identical and do not clash at the root (so at least one binding or a deep "
+                 "failure is exercised)"),
         "samples": samples,
         "distribution": dist,
         "failures": failures,
         "tie_breaks": tie_breaks,
-        "notes": ["%d distinct Coq evaluations for %d comparisons" % (len(ulist), len(exprs))],
+        "notes": ["%d Coq evaluations (one per pair) for %d observations" % (len(exprs), n_cmp)],
     }
